@@ -222,6 +222,14 @@ impl CompactionWorker {
         })
     }
 
+    /// Verification hook: `install_compaction_results` (private) on the calling thread.
+    pub(crate) fn install_compaction_results_for_verif(
+        db_fields_guard: &mut MutexGuard<GuardedDbFields>,
+        compaction_state: &mut CompactionState,
+    ) -> bool {
+        CompactionWorker::install_compaction_results(db_fields_guard, compaction_state).is_ok()
+    }
+
     /// Verification hook: run one background task on the calling thread.
     pub(crate) fn run_compaction_task_inline(db_state: &PortableDatabaseState) -> bool {
         CompactionWorker::compaction_task(db_state)
